@@ -6,7 +6,7 @@
    at most 2500 clauses / 2 unused reserved values, tail-trimmed reserved / extension, every length below 2^64). *)
 From Coq Require Import List NArith Bool.
 From Verif Require Import Codec.Model Codec.ProofsRLP Codec.ProofsComb Codec.ProofsObjects Codec.ProofsTop
-  Codec.ProofsItem Codec.ProofsRaw Codec.ProofsSign.
+  Codec.ProofsItem Codec.ProofsRaw Codec.ProofsSign Codec.ProofsNorm Codec.ProofsAcc.
 Import ListNotations.
 Open Scope N_scope.
 
@@ -39,6 +39,18 @@ Theorem tx_decode_canonical_except b t :
   go_decode_tx b = Some t -> tx_has_nil_list t = false ->
   go_reencode_tx t = b /\ lenN (tx_marshal t) = lenN (go_marshal_tx t).
 Proof. exact (tx_decode_canonical_except_l b t). Qed.
+(* exact characterisation: for every accepted input, Go's re-encoding is the input IFF no rlp:"nil" position held 0xc0;
+   the length (hence every Size()) is the canonical one in all cases *)
+Theorem tx_decode_canonical_iff b t : go_decode_tx b = Some t -> (go_reencode_tx t = b <-> tx_has_nil_list t = false).
+Proof. exact (tx_decode_canonical_iff_l b t). Qed.
+Theorem tx_unmarshal_canonical_iff b t : tx_unmarshal b = Some t -> (go_marshal_tx t = b <-> tx_has_nil_list t = false).
+Proof. exact (tx_unmarshal_canonical_iff_l b t). Qed.
+Theorem tx_reencode_length b t : go_decode_tx b = Some t ->
+  lenN (go_reencode_tx t) = lenN b /\ lenN (go_marshal_tx t) = lenN (tx_marshal t).
+Proof. exact (tx_reencode_length_l b t). Qed.
+(* Transaction.Size(): the value cached by DecodeRLP (ListSize(size) / len(payload)) equals what an empty cache computes *)
+Theorem tx_size_cached_is_canonical b t : go_decode_tx b = Some t -> go_tx_size_cached b = go_tx_size_fresh t.
+Proof. exact (tx_size_cached_l b t). Qed.
 Theorem tx_unmarshal_canonical b t : tx_unmarshal b = Some t ->
   b = tx_marshal t /\ (if t_dyn t then wfp c_dyn t else wfp c_legacy t).
 Proof. exact (tx_unmarshal_sound_l b t). Qed.
@@ -64,6 +76,36 @@ Proof. exact (block_roundtrip_l b). Qed.
 Theorem block_decode_canonical_except bs b :
   go_decode_block bs = Some b -> block_has_nil_list b = false -> go_reencode_block b = bs /\ wfp c_block b.
 Proof. exact (block_decode_canonical_except_l bs b). Qed.
+
+(* the exception set of blocks is exactly the transaction-level F2 class lifted (block_has_nil_list = existsb tx_has_nil_list) *)
+Theorem block_decode_canonical_iff bs b : go_decode_block bs = Some b -> (go_reencode_block b = bs <-> block_has_nil_list b = false).
+Proof. exact (block_decode_canonical_iff_l bs b). Qed.
+Theorem block_exception_is_lifted_tx_class b : block_has_nil_list b = existsb tx_has_nil_list (b_txs b).
+Proof. reflexivity. Qed.
+(* Block.Size(): the value cached by Block.DecodeRLP / RawBlock.DecodeRLP equals a fresh Size() and the input length, F2 or not *)
+Theorem block_size_cached_is_canonical bs b : go_decode_block bs = Some b ->
+  go_block_size_cached bs = go_block_size_fresh b /\ go_block_size_cached bs = lenN bs.
+Proof. exact (block_size_cached_l bs b). Qed.
+
+(* IntrinsicGas (uint64 arithmetic with SafeAdd/SafeMul): the exact unbounded sum or the overflow error, never a wrapped value;
+   no error for any clause list within the 2500 bound whose data is below 2^56 bytes *)
+Theorem intrinsic_gas_exact cl :
+  intrinsic_gas cl = if intrinsic_gas_math cl <? u64max1 then Some (intrinsic_gas_math cl) else None.
+Proof. exact (intrinsic_gas_exact_l cl). Qed.
+Theorem intrinsic_gas_total cl : lenN cl <= max_clauses -> lenN (concat (map c_data cl)) < 2 ^ 56 ->
+  exists g, intrinsic_gas cl = Some g /\ g = intrinsic_gas_math cl.
+Proof. exact (intrinsic_gas_total_l cl). Qed.
+
+(* trie.DeriveRoot hands the trie the pairs (rlp(i), MarshalBinary(item_i)): the keys are prefix-free, the SET of pairs
+   determines the ordered list of values, and the values determine the transactions.  (The trie-side half — equal roots =>
+   equal pair sets, C06 trie_canonical — is not part of this file.) *)
+Theorem root_keys_prefix_free i j r : i < u64max1 -> j < u64max1 -> enc (c_uint 8) j = enc (c_uint 8) i ++ r -> i = j /\ r = [].
+Proof. exact (root_key_prefix_free i j r). Qed.
+Theorem root_pairs_determine_list l1 l2 : lenN l1 < u64max1 -> lenN l2 < u64max1 ->
+  (forall k v, In (k, v) (root_pairs l1) <-> In (k, v) (root_pairs l2)) -> l1 = l2.
+Proof. exact (root_pairs_determine_list_l l1 l2). Qed.
+Theorem txs_values_determine l1 l2 : Forall wf_bin l1 -> Forall wf_bin l2 -> map tx_marshal l1 = map tx_marshal l2 -> l1 = l2.
+Proof. exact (txs_values_determine_l l1 l2). Qed.
 
 (* the two-phase decode used on the sync path returns exactly what the one-phase decode returns *)
 Theorem rawblock_two_phase_agrees b : go_decode_block_raw b = go_decode_block b.
@@ -136,7 +178,27 @@ Qed.
 Example ex_item_wf : wf_item (Lst [Str [1]; Lst [Str (repeat 7 60); Lst []]; Str []]).
 Proof. cbn. unfold two64. repeat split; exact eq_refl. Qed.
 
+Example ex_intrinsic : intrinsic_gas (t_clauses ex_tx_legacy) = Some 69340 /\ lenN (t_clauses ex_tx_legacy) <= max_clauses.
+Proof. split; vm_compute; [reflexivity|discriminate]. Qed.
+Example ex_wf_bin : Forall wf_bin [ex_tx_legacy; ex_tx_dyn].
+Proof.
+  apply Forall_cons; [|apply Forall_cons; [|apply Forall_nil]].
+  - exact (proj2 (tx_unmarshal_canonical (tx_marshal ex_tx_legacy) ex_tx_legacy ltac:(vm_compute; reflexivity))).
+  - exact (proj2 (tx_unmarshal_canonical (tx_marshal ex_tx_dyn) ex_tx_dyn ltac:(vm_compute; reflexivity))).
+Qed.
+
 Print Assumptions rlp_head_canonical.
+Print Assumptions tx_decode_canonical_iff.
+Print Assumptions tx_unmarshal_canonical_iff.
+Print Assumptions tx_reencode_length.
+Print Assumptions tx_size_cached_is_canonical.
+Print Assumptions block_decode_canonical_iff.
+Print Assumptions block_size_cached_is_canonical.
+Print Assumptions intrinsic_gas_exact.
+Print Assumptions intrinsic_gas_total.
+Print Assumptions root_keys_prefix_free.
+Print Assumptions root_pairs_determine_list.
+Print Assumptions txs_values_determine.
 Print Assumptions rlp_decode_encode.
 Print Assumptions rlp_canonical.
 Print Assumptions rawblock_two_phase_agrees.
